@@ -446,6 +446,12 @@ def shrink_pmm(nums):
     def build(rg, it):
         return [sel] + enc_map(rg) + head + [x for o in it for x in o]
     n = len(items)
+    if n > 5000:
+        # very long history (operation counts matter): only cut the tail, never the middle
+        for keep in (n // 2, 3 * n // 4, 7 * n // 8, n - 64, n - 8, n - 1):
+            if 0 < keep < n:
+                yield build(regs, items[:keep])
+        return
     # drop chunks of ops
     size = max(1, n // 2)
     while size >= 1:
